@@ -16,12 +16,12 @@ def gen_case(ctx):
     r = ctx.rng
     na = r.randint(2, 3)
     hdr = r.sample(['id', 'name', 'val', 'grp', 'x1'], na)
-    A = [[r.choice(CELLS) for _ in range(na)] for _ in range(r.randint(1, 5))]
+    A = [[r.choice(CELLS) for _ in range(na)] for _ in range(r.choice([0, 1, 2, 3, 4, 5]))]     # zero-row tables included
     join = r.random() < 0.25
     hdrB, B = None, None
     if join:
         hdrB = ['k', 'w']
-        B = [[r.choice(CELLS[:4]), 'w%d' % i] for i in range(r.randint(1, 3))]
+        B = [[r.choice(CELLS[:4]), 'w%d' % i] for i in range(r.randint(0, 3))]
     # type-agnostic expressions over string cells: fields, concatenation, literals, comparisons of strings, like
     def fld():
         i = r.randint(0, na - 1)
